@@ -761,7 +761,7 @@ def run(ctx):
     corpus = load_corpus()
     if corpus:
         run_cases(ctx, corpus)
-    nf, nm = ctx.n(36, 400), ctx.n(16, 150)
+    nf, nm = ctx.n(28, 400), ctx.n(12, 150)
     cases = []
     for _ in range(nf):
         c = gen_case(ctx.rng)
